@@ -24,6 +24,8 @@ type c09Case struct {
 	// write side
 	Writes   []int `json:"writes"`
 	MaxWrite int   `json:"max_write"`
+	// CapSeed selects which reader buffers have spare capacity behind their length
+	CapSeed int `json:"cap_seed,omitempty"`
 }
 
 func genC09(t *rapid.T) c09Case {
@@ -36,6 +38,7 @@ func genC09(t *rapid.T) c09Case {
 		WithData: rapid.Bool().Draw(t, "withdata"),
 		Writes:   rapid.SliceOfN(rapid.SampledFrom([]int{0, 1, 5, 100, 2048, 5000}), 0, 6).Draw(t, "writes"),
 		MaxWrite: rapid.SampledFrom([]int{0, 1, 3, 1000}).Draw(t, "maxwrite"),
+		CapSeed:  rapid.IntRange(0, 4).Draw(t, "capseed"),
 	}
 }
 
@@ -49,16 +52,22 @@ func checkC09(c c09Case) (o vstat.Outcome) {
 	}
 	conn := rwc.NewConn(ctx, sr, fakeAddr("l"), fakeAddr("r"), c.BufferN)
 	type rd struct {
-		b   []byte
-		err error
+		b    []byte
+		err  error
+		over int
 	}
 	var reads []rd
 	done := make(chan struct{})
 	go func() {
 		defer close(done)
 		for i := 0; i < c.Total+50; i++ {
-			buf := make([]byte, c.Bufs[i%len(c.Bufs)])
+			bl := c.Bufs[i%len(c.Bufs)]
+			buf := make([]byte, bl, bl+[]int{0, 0, 7, 64, 4096}[(i+c.CapSeed)%5])
 			n, err := conn.Read(buf)
+			if n > len(buf) {
+				reads = append(reads, rd{b: buf, err: err, over: n})
+				return
+			}
 			reads = append(reads, rd{b: buf[:n], err: err})
 			if err != nil && !errors.Is(err, io.ErrShortBuffer) {
 				return
@@ -77,6 +86,11 @@ func checkC09(c c09Case) (o vstat.Outcome) {
 	o.V = func() *vstat.Violation {
 		if len(reads) == 0 {
 			return vstat.Viol("no-reads", "no read returned")
+		}
+		for i, r := range reads {
+			if r.over != 0 {
+				return vstat.Viol("read-count-exceeds-buffer", "read %d returned n=%d for a buffer of %d bytes", i, r.over, len(r.b))
+			}
 		}
 		last := reads[len(reads)-1]
 		body := reads[:len(reads)-1]
